@@ -246,6 +246,9 @@ class ActionDispatcher:
                     else:
                         # TODO: there should be a common base class here
                         result = fn.run(**params)
+                        # The `run` method of a class based action can be async as well
+                        if inspect.iscoroutine(result):
+                            result = await result
                     return result, "success"
 
                 # We forward LLM Call exceptions
